@@ -220,3 +220,51 @@ def c07_retained(rng, sid, nscen):
                 steps.append(BARRIER)
         out.append({"id": "%s-ret%d" % (sid, i), "cfg": {"mode": rng.choice(["overlap", "onlyonce"]), "qq0": True}, "steps": steps})
     return out
+
+
+def c03_outbound(rng, sid, nscen):
+    """one scripted subscriber that controls its acknowledgements and is cut / resumed; messages come from the API
+    and from a publisher connection; Receive Maximum and max_inflight vary"""
+    out = []
+    for i in range(nscen):
+        ver = rng.choice([5, 5, 4])
+        maxinfl = rng.choice([1, 2, 3, 100])
+        exp = {"expiry": 1000} if ver == 5 else {}
+
+        def rmax():
+            return rng.choice([0, 1, 2, 3]) if ver == 5 else 0
+        k = 1
+        steps = [connect(k, "sub", ver, clean=(ver == 5), manualack=True, recvmax=rmax(), **exp),
+                 sub(k, [{"n": "o/#", "qos": 2}]), connect(50, "pubr", 4)]
+        n = 0
+        for _ in range(rng.randrange(6, 16)):
+            r = rng.random()
+            if r < 0.45:
+                n += 1
+                q = rng.choice([0, 1, 1, 2, 2])
+                if rng.random() < 0.7:
+                    steps.append(api("o/t", q, "o%d" % n))
+                else:
+                    steps.append(pub(50, "o/t", q, "o%d" % n))
+            elif r < 0.75:
+                steps.append({"op": "ack", "k": k, "t": "auto", "sel": rng.randrange(4),
+                              "code": 0x80 if (ver == 5 and rng.random() < 0.1) else 0})
+            elif r < 0.83:
+                steps.append(BARRIER)
+            else:
+                steps.append(BARRIER)
+                steps.append({"op": "abort", "k": k})
+                if rng.random() < 0.5:
+                    n += 1
+                    steps.append(api("o/t", rng.choice([1, 2]), "o%d" % n))      # published while offline
+                k += 1
+                steps.append(connect(k, "sub", ver, clean=False, manualack=True, recvmax=rmax(), **exp))
+                steps.append(BARRIER)
+        # drain: acknowledge everything; a session whose client acknowledges must receive everything
+        for j in range(3 * n + 6):
+            steps.append({"op": "ack", "k": k, "t": "auto", "sel": 0})
+            if j % 5 == 4:
+                steps.append(BARRIER)
+        steps.append(BARRIER)
+        out.append({"id": "%s-out%d" % (sid, i), "cfg": {"mode": "overlap", "qq0": True, "maxinflight": maxinfl, "maxqueued": 1000}, "steps": steps})
+    return out
